@@ -396,6 +396,8 @@ def run(chk):
     c12_forms.part_forms(chk)
     import c12_res
     c12_res.part_res(chk)
+    import c12_attr
+    c12_attr.part_attr(chk, drv, runner)
 
 
 def replay(chk, rep):
